@@ -96,11 +96,23 @@ inductive Ev
   | arrive (conn : Nat) (tag : Option Nat) (data : Bytes)
   | devclose (conn : Nat)
   | dopoll (m : Nat)                    -- the poll thread calls doPoll of module m (scenario with the real poll thread)
+  | more (c : Nat) (n : Nat)            -- getFullReply (byte devices, replies of variable length) calls readBytes(n)
+  | isend (c : Nat) (conn : Nat) (n : Nat) (data : Bytes)   -- a send made by checkHWIdent (identification on connect)
+  | idend (c : Nat) (ok : Bool)         -- checkHWIdent (with an identification configured) returned / raised
+  | busy (c : Nat)                      -- check_connection: another thread is connecting right now (accessLock not free)
 deriving DecidableEq, Repr
 
 structure TEv where
   t : Nat
   ev : Ev
+deriving DecidableEq, Repr
+
+/-- one entry of `identification`: the request, the length of the reply (byte devices) and the literal prefix the
+reply has to start with (the harness uses regular expressions of the form `prefix.*` / `p r e ?? ??`) -/
+structure IdReq where
+  cmd : Bytes
+  rlen : Nat
+  pat : Bytes
 deriving DecidableEq, Repr
 
 structure Cfg where
@@ -111,11 +123,17 @@ structure Cfg where
   interval : Nat         -- pollinterval = reconnect interval
   gran : Nat             -- the longest a single `recv` blocks (AsynConn.timeout)
   slack : Nat            -- clock reads of one thread between two events (ticks)
+  ident : List IdReq := []      -- `identification` (checkHWIdent on every connect)
+  retryFirst : Bool := true     -- StringIO.retry_first_idn
 deriving Repr
 
 inductive Pc
   | idle | acqO | check | chkNow | rcheck | connecting | visT | cbs (rest : List Nat)
   | acqI | slpWB | wakeWB | flush | drain | read | closing | visF | relI | slpD | wakeD | relO | fail | done
+  | readX                                           -- readBytes called by getFullReply (reply of variable length)
+  -- checkHWIdent: one communicate per identification request, then the comparison
+  | idChk | idChkNow | idAcq | idSlp | idWake | idFlush | idDrain | idRead | idRel
+  | idClosing (locked : Bool) | idVisF (locked : Bool) | idFail | idEnd (ok : Bool)
 deriving DecidableEq, Repr
 
 structure Caller where
@@ -130,6 +148,11 @@ structure Caller where
   lastT : Nat := 0            -- when the running recv started
   emptyAt : Option Nat := none
   viaRead : Bool := false     -- read_is_connected has returned True in this call: its wrapper still announces that value
+  xlen : Nat := 0             -- getFullReply: bytes the running readBytes still has to deliver
+  idTodo : List IdReq := []   -- checkHWIdent: requests still to do (the head is under way)
+  idRetry : Bool := false     -- checkHWIdent: a mismatch of the first request restarts the list (retry_first_idn)
+  idReply : Bytes := []       -- checkHWIdent: reply to the request under way
+  idSaved : List (List IdReq × Bool) := []   -- suspended checkHWIdent frames (a reconnect from within an identification)
   -- ghost fields (never read by `step`): bookkeeping for the proofs about delays
   reqs0 : List Req := []      -- the requests the current call started with
   sent : Nat := 0             -- sends of the current call so far
@@ -183,9 +206,57 @@ def nextReq (k : Caller) : Caller :=
   | [] => { k with pc := if k.kind = .multi then .relO else .done }
   | _ :: _ => { k with pc := .check }
 
-/-- after read_is_connected has returned True -/
-def afterConnected (k : Caller) : Caller :=
-  { k with pc := if k.kind = .poll then .done else .acqI, viaRead := true }
+/-- read_is_connected returns `self.is_connected`.  True: back to doPoll / communicate — or, when the reconnect was
+made from within an identification request (its check_connection), back into that request.  False (another caller has
+found the new connection closed in the meantime): doPoll is done, check_connection raises 'disconnected'. -/
+def afterConnected (s : State) (k : Caller) : Caller :=
+  if s.isConn then
+    match k.idSaved with
+    | [] => { k with pc := if k.kind = .poll then .done else .acqI, viaRead := true }
+    | (td, rt) :: rest => { k with pc := .idAcq, idTodo := td, idRetry := rt, idSaved := rest }
+  else
+    match k.idSaved with
+    | [] => if k.kind = .poll then { k with pc := .done } else failTo k
+    | (td, rt) :: rest => { k with pc := .idEnd false, idTodo := td, idRetry := rt, idSaved := rest }
+
+/-- read_is_connected raises (connect refused, identification failed): the exception goes to doPoll / communicate — or
+out of the identification request that asked for the reconnect, i.e. out of the enclosing checkHWIdent -/
+def rcFail (k : Caller) : Caller :=
+  match k.idSaved with
+  | [] => failTo k
+  | (td, rt) :: rest => { k with pc := .idEnd false, idTodo := td, idRetry := rt, idSaved := rest }
+
+/-- `if self._last_error: ... self.callCallbacks()` after connectStart (incl. checkHWIdent) has returned -/
+def afterIdent (s : State) (k : Caller) : Caller :=
+  if s.lastError then
+    (match s.cbsReg with
+     | [] => afterConnected s k
+     | _ :: _ => { k with pc := .cbs s.cbsReg })
+  else afterConnected s k
+
+/-- connectStart after `is_connected = True`: checkHWIdent -/
+def startIdent (s : State) (k : Caller) : Caller :=
+  match s.cfg.ident with
+  | [] => afterIdent s k
+  | _ :: _ => { k with pc := .idChk, idTodo := s.cfg.ident, idRetry := !s.cfg.bytesMode && s.cfg.retryFirst }
+
+def idReq (q : IdReq) : Req := ⟨q.cmd, true, q.rlen, 0⟩
+def idCur (k : Caller) : IdReq := k.idTodo.headD ⟨[], 0, []⟩
+
+/-- the comparison of checkHWIdent: the reply starts with the expected prefix -/
+def identOk (q : IdReq) (reply : Bytes) : Bool := q.pat.isPrefixOf reply
+
+/-- after an identification request has been answered (the lock is given back): next request, done, retry or close -/
+def idNext (cfg : Cfg) (k : Caller) : Caller :=
+  if identOk (idCur k) k.idReply then
+    (match k.idTodo.drop 1 with
+     | [] => { k with pc := .idEnd true, idTodo := [], idRetry := false }
+     | q :: rest => { k with pc := .idChk, idTodo := q :: rest, idRetry := false })
+  else if k.idRetry then { k with pc := .idChk, idTodo := cfg.ident, idRetry := false }
+  else { k with pc := .idClosing false }
+
+/-- the reply of variable length grows: what readBytes delivered is appended to the header -/
+def extendLast (l : List Bytes) (x : Bytes) : List Bytes := l.dropLast ++ [l.getLastD [] ++ x]
 
 /-- The generated wrapper of `read_is_connected` (modulebase.py:125-141) announces the value the method returned
 (`True`) AFTER the method has returned; if another caller has detected a disconnect in between, this update sets
@@ -214,6 +285,26 @@ def doAcqI (s : State) (c : Nat) (k : Caller) : Option State :=
     some (s'.setC c (if s.cfg.waitBefore = 0 then toFlush s' k' else { k' with pc := .slpWB }))
   else none
 
+def toIdFlush (s : State) (k : Caller) : Caller :=
+  match s.conn with
+  | none => { k with pc := .idFail }
+  | some _ => { k with pc := .idFlush }
+
+def doAcqId (s : State) (c : Nat) (k : Caller) : Option State :=
+  if s.freeFor c then
+    let s' := s.acquire c
+    let k' := { k with held := k.held + 1 }
+    some (s'.setC c (if s.cfg.waitBefore = 0 then toIdFlush s' k' else { k' with pc := .idSlp }))
+  else none
+
+/-- the connection has been dropped by ANOTHER thread (closeConnection of a failed identification runs without the
+communicator lock — so this needs an identification to be configured) while `c` is inside its exchange: the next use of
+`self._conn` raises, the inner `with` is left -/
+def connGone (s : State) (c : Nat) (k : Caller) (to : Caller → Caller) : Option State :=
+  if s.cfg.ident ≠ [] ∧ s.conn = none ∧ s.owner = some c then some (s.release.setC c (to { k with held := k.held - 1 })) else none
+
+def toIdEndFail (k : Caller) : Caller := { k with pc := .idEnd false }
+
 /-- `if time.time() < end: continue` after an empty recv (asynconn.py:129-132), up to the clock slack -/
 def mayRetry (k : Caller) (slack : Nat) : Bool :=
   match k.emptyAt with
@@ -240,11 +331,12 @@ def stepCaller (s : State) (t : Nat) (c : Nat) (e : Ev) : Option State :=
       (if s.lastAttempt + s.cfg.interval ≤ t' then some ({ s with lastAttempt := t' }.setC c { k with pc := .rcheck })
        else some (s.setC c (failTo k)))
     else none
-  | .chkNow, .acq _ => doAcqI s c k       -- connected by another thread while waiting for accessLock: check passes
+  | .chkNow, .acq _ => doAcqI s c k       -- connected by another thread in the meantime: check passes
+  | .chkNow, .busy _ => some (s.setC c (failTo k))   -- another thread is connecting right now: the call fails, it does not wait
   | .rcheck, .now _ t' =>     -- read_is_connected: not connected; the attempt is recorded
     if s.isConn = false ∧ t' = t then some ({ s with lastAttempt := t' }.setC c { k with pc := .connecting }) else none
   | .rcheck, .isconn _ v =>               -- read_is_connected returned True; its wrapper announces that, too late
-    if v = true ∧ s.isConn = false then some ({ s with isConn := true }.setC c k) else none
+    if v = true then some ({ s with isConn := true }.setC c k) else none   -- (also a re-announcement after a failed read)
   | .rcheck, .acq _ => doAcqI s c k       -- read_is_connected returned True (on behalf of a communicate)
   | .rcheck, .ret _ res =>                -- read_is_connected returned True (doPoll)
     if k.kind = .poll ∧ res = result k then some (s.setC c { k with pc := .idle }) else none
@@ -253,16 +345,10 @@ def stepCaller (s : State) (t : Nat) (c : Nat) (e : Ev) : Option State :=
       if ok then
         some ({ s with conn := some s.nconn, nconn := s.nconn + 1, rxbuf := [], chan := [], eof := false }.setC c
           { k with pc := .visT })
-      else some ({ s with lastError := true }.setC c (failTo k))
+      else some ({ s with lastError := true }.setC c (rcFail k))
     else none
   | .visT, .isconn _ v =>
-    if v = true then
-      some ({ s with isConn := true }.setC c (if s.lastError then
-          (match s.cbsReg with
-           | [] => afterConnected k
-           | _ :: _ => { k with pc := .cbs s.cbsReg })
-        else afterConnected k))
-    else none
+    if v = true then some ({ s with isConn := true }.setC c (startIdent { s with isConn := true } k)) else none
   | .cbs l, .cb _ n' keep =>
     match l with
     | [] => none
@@ -270,7 +356,7 @@ def stepCaller (s : State) (t : Nat) (c : Nat) (e : Ev) : Option State :=
       if n' = n then
         let s' := if keep then s else { s with cbsReg := removeCb n s.cbsReg }
         some (s'.setC c (match rest with
-          | [] => afterConnected k
+          | [] => afterConnected s' k
           | _ :: _ => { k with pc := .cbs rest }))
       else none
   | .acqI, .acq _ => doAcqI s c k
@@ -318,6 +404,7 @@ def stepCaller (s : State) (t : Nat) (c : Nat) (e : Ev) : Option State :=
     | .closed =>
       if s.chan = [] ∧ s.eof = true ∧ mayRetry k s.cfg.slack = true then some (s.setC c { k with pc := .closing }) else none
   | .read, .rel _ =>       -- TimeoutError leaves the inner `with`
+    if s.conn = none then connGone s c k failTo else
     match k.emptyAt with
     | some te =>
       if k.endT ≤ te + s.cfg.slack ∧ s.owner = some c then
@@ -343,12 +430,127 @@ def stepCaller (s : State) (t : Nat) (c : Nat) (e : Ev) : Option State :=
     if s.owner = some c ∧ 0 < k.held then some (s.release.setC c (failTo { k with held := k.held - 1 })) else none
   | .done, .ret _ res =>
     if res = result k then some (s.setC c { k with pc := .idle }) else none
+  -- the connection vanished under the caller's hands (see `connGone`)
+  | .flush, .rel _ => connGone s c k failTo
+  | .drain, .rel _ => connGone s c k failTo
+  | .closing, .rel _ => connGone s c k failTo
+  | .readX, .rel _ =>
+    if s.conn = none then connGone s c k failTo else
+    match k.emptyAt with
+    | some te =>
+      if k.endT ≤ te + s.cfg.slack ∧ s.owner = some c then
+        some ({ s.release with lastError := true }.setC c (failTo { k with held := k.held - 1 }))
+      else none
+    | none => none
+  -- getFullReply (byte devices): readBytes(n) inside the inner `with`, after the header has been read
+  | .relI, .more _ n =>
+    if s.cfg.bytesMode = true ∧ (current k).expect = true ∧ 0 < n ∧ s.conn ≠ none then
+      (if n ≤ s.rxbuf.length then
+         some ({ s with rxbuf := s.rxbuf.drop n }.setC c { k with replies := extendLast k.replies (s.rxbuf.take n) })
+       else some (s.setC c { k with pc := .readX, xlen := n, endT := t + s.cfg.timeout, lastT := t, emptyAt := none }))
+    else none
+  | .readX, .recv _ out =>
+    match out with
+    | .data d =>
+      (match s.chan with
+       | d' :: rest =>
+         if d = d' ∧ mayRetry k s.cfg.slack = true then
+           let buf := s.rxbuf ++ d
+           if k.xlen ≤ buf.length then
+             some ({ s with chan := rest, rxbuf := buf.drop k.xlen }.setC c
+               { k with pc := .relI, replies := extendLast k.replies (buf.take k.xlen) })
+           else some ({ s with chan := rest, rxbuf := buf }.setC c { k with lastT := t, emptyAt := none })
+         else none
+       | [] => none)
+    | .empty =>
+      if s.chan = [] ∧ s.eof = false ∧ t ≤ k.lastT + s.cfg.gran + s.cfg.slack
+         ∧ mayRetry k s.cfg.slack = true then
+        some (s.setC c { k with lastT := t, emptyAt := some t })
+      else none
+    | .closed =>
+      if s.chan = [] ∧ s.eof = true ∧ mayRetry k s.cfg.slack = true then some (s.setC c { k with pc := .closing }) else none
+  -- checkHWIdent: communicate(request) for every entry of `identification`
+  | .idChk, .chk _ v =>
+    if v = s.isConn then some (s.setC c { k with pc := if v then .idAcq else .idChkNow }) else none
+  | .idChkNow, .now _ t' =>    -- accessLock is held by this thread already (re-entrant): only the rate test
+    if t' = t then
+      (if s.lastAttempt + s.cfg.interval ≤ t' then
+         some ({ s with lastAttempt := t' }.setC c { k with pc := .rcheck, idSaved := (k.idTodo, k.idRetry) :: k.idSaved })
+       else some (s.setC c (toIdEndFail k)))
+    else none
+  | .idAcq, .acq _ => doAcqId s c k
+  | .idSlp, .slp _ d =>
+    if d = s.cfg.waitBefore then some (s.setC c { k with pc := .idWake, wakeAt := t + d }) else none
+  | .idWake, .wake _ => if k.wakeAt ≤ t then some (s.setC c (toIdFlush s k)) else none
+  | .idFlush, .flush _ => some (s.setC c { k with pc := .idDrain })
+  | .idFlush, .rel _ => connGone s c k toIdEndFail
+  | .idDrain, .recv _ out =>
+    match out with
+    | .data d =>
+      (match s.chan with
+       | d' :: rest => if d = d' then some { s with chan := rest } else none
+       | [] => none)
+    | .closed => if s.chan = [] ∧ s.eof = true then some (s.setC c { k with pc := .idClosing true }) else none
+    | .empty => none
+  | .idDrain, .rel _ => connGone s c k toIdEndFail
+  | .idDrain, .isend _ conn n data =>
+    if s.chan = [] ∧ s.eof = false ∧ s.conn = some conn ∧ n = s.nsend ∧ data = (idCur k).cmd then
+      let s' := { s with rxbuf := [], nsend := s.nsend + 1 }
+      match complete s.cfg (idReq (idCur k)) [] with
+      | some (l, r) => some ({ s' with rxbuf := r }.setC c { k with pc := .idRel, idReply := l })
+      | none => some (s'.setC c { k with pc := .idRead, endT := t + s.cfg.timeout, lastT := t, emptyAt := none })
+    else none
+  | .idRead, .recv _ out =>
+    match out with
+    | .data d =>
+      (match s.chan with
+       | d' :: rest =>
+         if d = d' ∧ mayRetry k s.cfg.slack = true then
+           let buf := s.rxbuf ++ d
+           match complete s.cfg (idReq (idCur k)) buf with
+           | some (l, r) => some ({ s with chan := rest, rxbuf := r }.setC c { k with pc := .idRel, idReply := l })
+           | none => some ({ s with chan := rest, rxbuf := buf }.setC c { k with lastT := t, emptyAt := none })
+         else none
+       | [] => none)
+    | .empty =>
+      if s.chan = [] ∧ s.eof = false ∧ t ≤ k.lastT + s.cfg.gran + s.cfg.slack
+         ∧ mayRetry k s.cfg.slack = true then
+        some (s.setC c { k with lastT := t, emptyAt := some t })
+      else none
+    | .closed =>
+      if s.chan = [] ∧ s.eof = true ∧ mayRetry k s.cfg.slack = true then some (s.setC c { k with pc := .idClosing true }) else none
+  | .idRead, .rel _ =>
+    if s.conn = none then connGone s c k toIdEndFail else
+    match k.emptyAt with
+    | some te =>
+      if k.endT ≤ te + s.cfg.slack ∧ s.owner = some c then
+        some ({ s.release with lastError := true }.setC c (toIdEndFail { k with held := k.held - 1 }))
+      else none
+    | none => none
+  | .idRel, .rel _ =>
+    if s.owner = some c then some (s.release.setC c (idNext s.cfg { k with held := k.held - 1 })) else none
+  | .idClosing b, .hclose _ =>
+    if s.conn ≠ none then
+      some ({ s with conn := none, rxbuf := [], chan := [], eof := false, lastError := true }.setC c { k with pc := .idVisF b })
+    else none
+  | .idClosing b, .rel _ => if b = true then connGone s c k toIdEndFail else none
+  | .idClosing b, .idend _ ok =>    -- closeConnection without a connection raises (another thread has closed it)
+    if b = false ∧ ok = false ∧ s.conn = none then some ({ s with lastError := true }.setC c (rcFail k)) else none
+  | .idVisF b, .isconn _ v =>
+    if v = false then some ({ s with isConn := false }.setC c { k with pc := if b then .idFail else .idEnd false }) else none
+  | .idFail, .rel _ =>
+    if s.owner = some c ∧ 0 < k.held then some (s.release.setC c (toIdEndFail { k with held := k.held - 1 })) else none
+  | .idEnd ok, .idend _ ok' =>
+    if ok' = ok then
+      (if ok then some (s.setC c (afterIdent s k)) else some ({ s with lastError := true }.setC c (rcFail k)))
+    else none
   | _, _ => none
 
 /-- who performs an event (`none`: the device) -/
 def Ev.who : Ev → Option Nat
   | .call c _ _ | .chk c _ | .now c _ | .connect c _ _ | .isconn c _ | .cb c _ _ | .acq c | .rel c
-  | .slp c _ | .wake c | .flush c | .send c _ _ _ | .recv c _ | .hclose c | .ret c _ => some c
+  | .slp c _ | .wake c | .flush c | .send c _ _ _ | .recv c _ | .hclose c | .ret c _
+  | .more c _ | .isend c _ _ _ | .idend c _ | .busy c => some c
   | .arrive _ _ _ | .devclose _ | .dopoll _ => none
 
 /-- one time-stamped event; the clock never runs backwards -/
